@@ -1,6 +1,6 @@
 """C05 — wire fast path and decoded path are observationally equivalent."""
 
-_H = {"server": ["zz_verif_srv_*.go", "zz_verif_c05_test.go", "zz_verif_c06_test.go"], "middleware": ["zz_verif_export.go"]}
+_H = {"server": ["zz_verif_srv_*.go", "zz_verif_c05_test.go", "zz_verif_c05_limiter_test.go", "zz_verif_c06_test.go"], "middleware": ["zz_verif_export.go"]}
 
 CHECK = {
     "level": "exploration",
@@ -10,8 +10,10 @@ CHECK = {
     "level_note": "Trusted: miekg Unpack as the decoder of both replies; the harness' re-implementation of the engines' 12-line header accept step (the real acceptHeader/rejectInPlace are called); real sockets, readers and batching are out of scope here (C10/C11). Limiter-token side effects are compared only through replies (rate-limit configs in thorough).",
     "rule": "cases = config x target x transport x packet; 'nontrivial' = distinct cases that produced a reply on the reference path",
     "assumptions": ["the scripted upstream answers unscripted names with TC=1 so that serving a packet does not change cache state between the paths"],
-    "bounds": {"quick": "3 configs x 16 targets x 2 transports x ~150 packets x 3-4 paths", "thorough": "5 configs, + all option pairs and all 128 flag combinations"},
+    "bounds": {"quick": "3 configs x 16 targets x 2 transports x ~150 packets x 3-4 paths, each packet also right after another client's EDNS query on the same recycled slab; limiter unit: every sequence of <= 3 cookie-shaped queries (2 transports x 7 cookie forms) + 7 plain probes, per entry path with its own client bucket", "thorough": "5 configs, + all option pairs and all 128 flag combinations"},
     "units": {
         "sweep": {"pkg": "server", "run": "TestVerifC05", "harness": _H, "stub_tests": ["server"], "budget_s": {"quick": 80, "thorough": 700}},
+        # side effects later queries can see: limiter tokens and the remembered cookie, per entry path
+        "limiter": {"pkg": "server", "run": "TestVerifC05Limiter", "harness": _H, "stub_tests": ["server"], "budget_s": {"quick": 60, "thorough": 300}},
     },
 }
